@@ -18,7 +18,6 @@ Definition consistent (fe : femap) (be : bemap) : Prop :=
   forall k v, lookup fkey_eqb fe k = Some v ->
   forall i, i < fv_count v -> lookup pair_eqb be (fv_id v, i) <> None.
 
-Definition nrange (n : N) : list N := map N.of_nat (seq 0 (N.to_nat n)).
 Definition COUNT_LIMIT : N := 100000.
 
 (* boolean form, over the entries of the association list (shadowed entries cannot occur in maps built by
@@ -137,13 +136,50 @@ Definition maglev_okb (lut : N) (npips : list N) (st : state) (fe : femap) (mg :
   (* no table for an id no maglev frontend uses *)
   && forallb (fun row => existsb (fun kv => (fv_id (snd kv) =? fst (fst row)) && has_flag (fv_flags (snd kv)) FLG_MAGLEV) fe) mg.
 
+(* ------------------------------------------------------------------ (3) Maglev LUT map, mid-update *)
+(* A frontend flagged maglev sends every packet through the LUT map (id, hash mod lut) and the packet is DROPPED when
+   the entry is missing (tc.c calico_tc_maglev, CALI_REASON_MAGLEV_NO_BACKEND).  So the analogue of `consistent`:
+   every frontend flagged maglev that has backends finds all `lut` entries of its id.  It is `consistent` for the
+   view of the frontend map in which a flagged frontend "counts" lut entries and any other frontend none. *)
+Definition mg_count (lut : N) (v : fval) : N :=
+  if has_flag (fv_flags v) FLG_MAGLEV && negb (fv_count v =? 0) then lut else 0.
+Definition mgview (lut : N) (fe : femap) : femap :=
+  map (fun kv => (fst kv, FV (fv_id (snd kv)) (mg_count lut (snd kv)) 0 0 0)) fe.
+Definition mg_consistent (lut : N) (fe : femap) (mg : bemap) : Prop := consistent (mgview lut fe) mg.
+Definition mg_consistentb (lut : N) (fe : femap) (mg : bemap) : bool := consistentb (mgview lut fe) mg.
+
+(* recorded writes: to the two NAT maps, or to the Maglev LUT map *)
+Inductive xwrite := XW (w : write) | XSetM (k : bkey) (v : bval) | XDelM (k : bkey).
+Definition dp3 := (dp * bemap)%type.
+Definition do_xwrite (d : dp3) (x : xwrite) : dp3 :=
+  match x with
+  | XW w => (do_write (fst d) w, snd d)
+  | XSetM k v => (fst d, upd pair_eqb k v (snd d))
+  | XDelM k => (fst d, del pair_eqb k (snd d))
+  end.
+Definition do_xwrites (d : dp3) (xs : list xwrite) : dp3 := fold_left do_xwrite xs d.
+Definition core_writes (xs : list xwrite) : list write :=
+  flat_map (fun x => match x with XW w => [w] | _ => [] end) xs.
+
+(* replay of everything recorded; after EACH single write: consistent, and (mgcheck) mg_consistent *)
+Fixpoint replay3_ok (mgcheck : bool) (lut : N) (d : dp3) (xs : list xwrite) : bool :=
+  match xs with
+  | [] => true
+  | x :: t => let d' := do_xwrite d x in
+              consistentb (fst (fst d')) (snd (fst d'))
+              && (negb mgcheck || mg_consistentb lut (fst (fst d')) (snd d'))
+              && replay3_ok mgcheck lut d' t
+  end.
+
 (* ------------------------------------------------------------------ correspondence cases *)
 Inductive op :=
 | OApply (st : state) (v : visit) (failF : list fkey) (failB : list bkey)
-         (trace : list write) (err : bool) (fe_after : femap) (be_after : bemap) (mg : mgobs)
+         (trace : list xwrite) (err : bool) (fe_after : femap) (be_after : bemap) (mg : mgobs)
 | ORestart.
 
-Record case := Case { k_npips : list N; k_reset : bool; k_lut : N; k_ops : list op }.
+(* k_mgcheck = false: the maglev mid-update part of the oracle is off (the driver emits such a copy of a history in
+   which it saw that part fail, so that the rest of the oracle is still applied to it) *)
+Record case := Case { k_npips : list N; k_reset : bool; k_lut : N; k_mgcheck : bool; k_ops : list op }.
 
 Definition femap_eqb (a b : femap) : bool :=
   forallb (fun kv => match lookup fkey_eqb b (fst kv) with Some v => fval_eqb v (snd kv) | None => false end) a
@@ -152,13 +188,14 @@ Definition bemap_eqb (a b : bemap) : bool :=
   forallb (fun kv => match lookup pair_eqb b (fst kv) with Some v => pair_eqb v (snd kv) | None => false end) a
   && forallb (fun kv => is_some (lookup pair_eqb a (fst kv))) b.
 
-(* model side: run the model over the history with the implementation's schedule; compare error flag and maps *)
+(* model side: run the model over the history with the implementation's schedule (its writes to the two NAT maps);
+   compare error flag and maps *)
 Fixpoint model_agrees (cfg : config) (sy : syncer) (d : dp) (ops : list op) : bool :=
   match ops with
   | [] => true
   | ORestart :: t => model_agrees cfg new_syncer d t
   | OApply st v fF fB tr err fe be _ :: t =>
-      match exec_apply cfg sy d st v fF fB tr with
+      match exec_apply cfg sy d st v fF fB (core_writes tr) with
       | None => false
       | Some (sy', d', err') =>
           Bool.eqb err err' && femap_eqb (fst d') fe && bemap_eqb (snd d') be
@@ -168,19 +205,19 @@ Fixpoint model_agrees (cfg : config) (sy : syncer) (d : dp) (ops : list op) : bo
 
 (* spec side: only the implementation's observables (the recorded single writes, the maps read back after the
    apply, the error flag) and the inputs *)
-Fixpoint oracle (npips : list N) (lut : N) (d : dp) (ops : list op) : bool :=
+Fixpoint oracle (mgcheck : bool) (npips : list N) (lut : N) (d : dp3) (ops : list op) : bool :=
   match ops with
   | [] => true
-  | ORestart :: t => oracle npips lut d t
+  | ORestart :: t => oracle mgcheck npips lut d t
   | OApply st _ _ _ tr err fe be mg :: t =>
-      let d' := do_writes d tr in
-      replay_ok d tr
-      && femap_eqb (fst d') fe && bemap_eqb (snd d') be       (* the recorder saw every write *)
+      let d' := do_xwrites d tr in
+      replay3_ok mgcheck lut d tr
+      && femap_eqb (fst (fst d')) fe && bemap_eqb (snd (fst d')) be       (* the recorder saw every write *)
       && (err || negb (state_wf npips st)
           || (final_exactb npips st fe be && maglev_okb lut npips st fe mg))
-      && oracle npips lut (fe, be) t
+      && oracle mgcheck npips lut ((fe, be), snd d') t
   end.
 
 Definition check_case (c : case) : bool * bool :=
   (model_agrees (Config (k_npips c) (k_reset c)) new_syncer ([], []) (k_ops c),
-   oracle (k_npips c) (k_lut c) ([], []) (k_ops c)).
+   oracle (k_mgcheck c) (k_npips c) (k_lut c) (([], []), []) (k_ops c)).
